@@ -343,6 +343,22 @@ theorem smarts_roundtrip (d : DocAtom) (h : DocWF d = true) :
     smartsModel ('[' :: printDoc d ++ [']']) [] = .ok ⟨[(numberOf d, denote d)], []⟩ :=
   smarts_printDoc d h
 
+/-- … and with the CX radical block `|^1:0|` the same atom carries the radical mark (any-metal takes no radical mark) -/
+theorem smarts_roundtrip_radical (d : DocAtom) (h : DocWF d = true) (hm : d.head ≠ .metal) :
+    smartsModel ('[' :: printDoc d ++ [']']) [0] = .ok ⟨[(numberOf d, { denote d with radical := true })], []⟩ :=
+  smarts_printDoc_rad d h true (fun _ => hm)
+
+/-- a radical query atom matches only radical atoms, a non-radical one only non-radical atoms (clause of `eq_is_spec`) -/
+theorem radical_mark_matches (q : QAtom) (a : MAtom) (hq : QWF q) (ha : AWF a) (hk : q.kind ≠ .metal)
+    (h : pyEq q a = true) : q.radical = a.radical := by
+  have hs := (eq_is_spec q a hq ha).mp h
+  unfold Matches at hs
+  cases hkk : q.kind with
+  | metal => exact absurd hkk hk
+  | element z i => simp only [hkk] at hs; exact hs.2.2.1
+  | any => simp only [hkk] at hs; exact hs.2.2.1
+  | list zs => simp only [hkk] at hs; exact hs.2.2.1
+
 /-- the hypothesis is satisfiable: all 2936 atoms of the enumerated grid (every element as symbol and `#n`, every single
     primitive with every value and value pair, all mark combinations, all family combinations) are well-formed -/
 theorem docGrid_wf : ∀ d ∈ docGrid, DocWF d = true := by decide +kernel
